@@ -271,6 +271,13 @@ func genHist(profile string, n int, r *Rng, emit func(Case)) {
 		if profile == "count" || (profile == "type" && r.Intn(4) == 0) {
 			kind = "G" // generator-backed: opaque in v3 whatever the length of its stream
 		}
+		if (profile == "read" || profile == "chain") && ver == "v3" && len(raw) >= 2 && r.Intn(6) == 0 {
+			// a generator-backed Number whose stream misbehaves: its digits are the longest prefix within 0-9
+			kind = "G"
+			j := r.Range(1, len(raw)-1)
+			raw[j] = r.Pick([]int{-1, 10, 11, -2, 256 + r.Intn(10), 512 + r.Intn(10), -256 + r.Intn(10), 1000, MaxInt, MinInt})
+			g.length = j
+		}
 		if (profile == "type" || profile == "read") && r.Intn(4) == 0 {
 			// real constructors: rationals (terminating and not), square and cube roots
 			kind = []string{"Q", "Q", "S", "C"}[r.Intn(4)]
